@@ -2,7 +2,7 @@
 from fractions import Fraction as Fr
 import numpy as np
 from harness import coqio as Q
-from harness.impl import lin_wcs, exc_name
+from harness.impl import poke, lin_wcs, exc_name
 
 CORR = "C10_corr"
 IMPORTS = ["M_Arith"]
@@ -139,7 +139,7 @@ def _mk_cube(case):
     c.global_coords.add("g", "custom:g", 3 * u.s)
     if pre:
         c = c[1]
-    return c
+    return poke(c, case["key"])
 
 
 def _mk_operand(case):
